@@ -73,3 +73,14 @@ def fd_sub_point_is_side_effect_free(self, system, idx_info, delta, total):
     self._starting_resids = system._residuals.asarray(copy=True)
     self._starting_ins = system._inputs.asarray(copy=True)
     self._run_sub_point(system, idx_info, delta, total)
+
+
+# ---- C08 / C04 ------------------------------------------------------------------------------
+def input_phys_from_norm(norm, ref, ref0, factor, offset):
+    # nonlinear input scaling arrays as filled by DefaultVector._set_scaling (factor branch)
+    a0, a1 = ref0, ref - ref0
+    scale0 = (a0 + offset) * factor
+    scale1 = a1 * factor
+    phys_in = norm * scale1 + scale0            # _scale_reverse on the input vector
+    phys_out = norm * a1 + a0                   # _scale_reverse on the source output
+    return phys_in, phys_out
